@@ -6,6 +6,118 @@ from pathlib import Path
 V = Path(__file__).resolve().parent.parent
 
 CHECKS = {
+    "C04": dict(
+        category="proof",
+        text='Lean 4 theorems (C04.*): the whole-tensor shortcuts any(tilt != 0) / all(misalignment == 0) are identities on their guards, so the batched quadrupole / base_rmatrix maps equal the per-sample maps for every mixture in the batch, hence no cross-talk; the Dipole any(length != 0) and Cavity any(delta_energy > 0) branches are proved to cross-talk (witness theorems = known findings). Tie: vectorised transfer_map entries vs per-sample model maps. Falsifier: batched track vs Python loop for all classes, shapes, mixtures.',
+        design="§5 C04",
+        note='Trusted: Lean 4.33 kernel, Mathlib; axioms propext/Classical.choice/Quot.sound only (audited each run); instance Scalar ℝ; real-number semantics (round-off outside the theorems, covered by double-vs-double correspondence); harness generators; partial: PyTorch broadcasting/unsqueeze plumbing is not modelled (falsifier only).',
+        technique='Lean 4 proof over batch model (lists of per-sample records) + differential correspondence + loop-vs-batch falsifier',
+    ),
+    "C05": dict(
+        category="proof",
+        text="Lean 4 theorems (C05.*): forward-mode dual numbers over the same polymorphic model; HasDerivAt proofs that the tangents of the focusing functions and of R[1,0] are the true derivatives for k>0, that the guard passes tangents for k1 != 0 and kills them at k1 == 0 (known finding). Tie: torch.autograd gradients of all 49 map entries w.r.t. every quadrupole parameter vs the model's tangents at Dual Float (agree incl. guard points). Falsifier: autograd vs central finite differences for every class/parameter/beam type incl. exact-zero points.",
+        design="§5 C05",
+        note='Trusted: Lean 4.33 kernel, Mathlib; axioms propext/Classical.choice/Quot.sound only (audited each run); instance Scalar ℝ; real-number semantics (round-off outside the theorems, covered by double-vs-double correspondence); harness generators; partial: reverse-mode engine (NaN from unselected branches) not modelled; derivative proofs cover the focusing functions only.',
+        technique='Lean 4 proof (HasDerivAt of dual-number tangents) + autograd correspondence + finite-difference falsifier',
+    ),
+    "C06": dict(
+        category="proof",
+        text='Lean 4 theorems (C06.*): for every 7x7 map the sample mean/unbiased covariance of the mapped particles equal M mu, M Sigma M^T (all 6 means, 21 second moments); lifted to every skippable element kind and every nested all-skippable segment of the model; energy agreement for all kinds incl. active cavities; PSD/symmetry preserved; active-cavity transverse rows linear. Tie: Element.track of both beam types vs Elem.trackP/trackM (incl. cavity formulas). Falsifier: moments of tracked particles vs tracked moments on the real code.',
+        design="§5 C06",
+        note='Trusted: Lean 4.33 kernel, Mathlib; axioms propext/Classical.choice/Quot.sound only (audited each run); instance Scalar ℝ; real-number semantics (round-off outside the theorems, covered by double-vs-double correspondence); harness generators; element contracts of the real classes are sampled.',
+        technique='Lean 4 proof (list-sum algebra over Mathlib matrices) + track correspondence + moment falsifier',
+    ),
+    "C07": dict(
+        category="proof",
+        text='Lean 4 theorems (C07.*): the Bmad-X drift kernel is an exact flow (pieces compose, zero length = identity), so is the Drift element incl. the tau/delta<->z/pz conversions; straight-line motion formula; momenta untouched; TransverseDeflectingCavity at 0 V = Bmad-X drift in its frame. Tie: single particles through the real Bmad-X Drift/Quadrupole/Dipole/TDC and conversions vs CheetahModel.Bmadx at Float. Falsifier: autograd Jacobian vs linear map, piece composition for quadrupole/bend, uniform-field motion.',
+        design="§5 C07",
+        note='Trusted: Lean 4.33 kernel, Mathlib; axioms propext/Classical.choice/Quot.sound only (audited each run); instance Scalar ℝ; real-number semantics (round-off outside the theorems, covered by double-vs-double correspondence); harness generators; partial: quadrupole-step flow, bend-body exactness and Jacobian = linear map are falsifier-only.',
+        technique='Lean 4 proof (real analysis of the drift kernel) + kernel correspondence + Jacobian/flow falsifier',
+    ),
+    "C09": dict(
+        category="proof",
+        text='Lean 4 theorems (C09.*): exact equality with the drift map for correctors at angle 0, undulator, solenoid at k=0 (any misalignment), cavity map at V=0 for any phase/frequency and its tracking for both beam types, TDC at 0 V; zero-length zero-strength identities; bound |cos-like - 1| <= 1e-12 L^2/2 for the 1e-12 guard. Tie: maps at the exact-zero points and Bmad-X kernels vs the model. Falsifier: Element(strength=0).track vs Drift(L, same method), finiteness, continuity sweeps.',
+        design="§5 C09",
+        note='Trusted: Lean 4.33 kernel, Mathlib; axioms propext/Classical.choice/Quot.sound only (audited each run); instance Scalar ℝ; real-number semantics (round-off outside the theorems, covered by double-vs-double correspondence); harness generators; quadrupole/dipole guard distance is proved for the focusing function only; Bmad-X limits falsifier-only.',
+        technique='Lean 4 proof + exact-zero correspondence + drift-comparison falsifier',
+    ),
+    "C10": dict(
+        category="proof",
+        text='Lean 4 theorems (C10.*), by mutual induction over arbitrary lattices: survival stays within [0, previous value] (hence within [0,1], never increasing), particle count and charges never change; aperture = exact 0/1 mask with strict-< rectangle and <=1 ellipse, coordinates untouched; energy changes only in active cavities by V cos(phase); blocking screen zeroes survival and it stays zero downstream; with 0/1 survival the weighted mean / unbiased weighted variance / total charge equal those of the survivors. Tie: apertures, screens, cavities vs Elem.trackP/M; statistics vs wmean/wvar/wcov.',
+        design="§5 C10",
+        note='Trusted: Lean 4.33 kernel, Mathlib; axioms propext/Classical.choice/Quot.sound only (audited each run); instance Scalar ℝ; real-number semantics (round-off outside the theorems, covered by double-vs-double correspondence); harness generators; none identified.',
+        technique='Lean 4 proof (invariant by induction over lattices, list-sum algebra) + correspondences + falsifier',
+    ),
+    "C11": dict(
+        category="proof",
+        text="Lean 4 theorems (C11.*): on the model (lattice = its parameter records) after any history of assign/track/clone/read a track equals the track of a freshly built lattice with the final records; tracking is pure and repeatable; the Screen's read-beam/cached-reading state machine is coherent for every history and a reading reflects the last beam that passed. The claim that the real objects are such a pure machine is decided by the falsifier: random histories with bitwise snapshots and _version counters of every input tensor, final track vs rebuilt lattice, readings vs fresh diagnostics.",
+        design="§5 C11",
+        note='Trusted: Lean 4.33 kernel, Mathlib; axioms propext/Classical.choice/Quot.sound only (audited each run); instance Scalar ℝ; real-number semantics (round-off outside the theorems, covered by double-vs-double correspondence); harness generators; partial: aliasing is observed at tensor granularity, not proved; autograd graph retention not modelled.',
+        technique='Lean 4 proof (state-machine invariant by induction over histories) + history falsifier on the real objects',
+    ),
+    "C12": dict(
+        category="proof",
+        text="Lean 4 theorems (C12.*) by decide over tables regenerated from /repo's AST on every run: no tensor-creation site outside the reviewed baseline allocates in the default dtype or casts a default-dtype temporary; every split forwards dtype/device; plus the arithmetic reasons a float32 constant or a float32-routed decimal ruins float64 accuracy. Tie for accuracy: the float64 correspondences (model at double vs code within ~1e-13). Falsifier: exhaustive dtype audit of constructors/transformations/importers x {f32,f64}, float32-participation tracer, mpmath accuracy checks.",
+        design="§5 C12",
+        note='Trusted: Lean 4.33 kernel, Mathlib; axioms propext/Classical.choice/Quot.sound only (audited each run); instance Scalar ℝ; real-number semantics (round-off outside the theorems, covered by double-vs-double correspondence); harness generators; partial: round-off is not a theorem; the site table is a syntactic abstraction (a leak classified Requested/Inherited is seen only by the falsifier).',
+        technique='Lean 4 decide over translator-regenerated tables + dtype audit / mpmath falsifier',
+    ),
+    "C13": dict(
+        category="proof",
+        text="Lean 4 theorems (C13.*) by decide: the Elegant/Bmad element-type dispatch tables (type -> class, keyword -> expression, understood properties) regenerated from the converters' if/elif chains equal the reviewed tables (incl. the Elegant phase - 90 convention). Falsifier: random abstract lattices (variables, expressions, inheritance, later assignments, nested lines) rendered in many spellings, imported and compared with an independent reference denotation; NX-table layouts vs tabulated positions.",
+        design="§5 C13",
+        note='Trusted: Lean 4.33 kernel, Mathlib; axioms propext/Classical.choice/Quot.sound only (audited each run); instance Scalar ℝ; real-number semantics (round-off outside the theorems, covered by double-vs-double correspondence); harness generators; partial: the textual layer (regex chain, eval) and line expansion are covered differentially only.',
+        technique='Lean 4 decide over translator-regenerated tables + differential import falsifier',
+    ),
+    "C14": dict(
+        category="proof",
+        text='Lean 4 theorems (C14.*): parse_segment(convert_segment l) = l for every uniquely named segment tree - any nesting depth, sub-segments in any position, order/names/classes/parameters preserved (model of latticejson.py, core Lean, induction over trees); and by decide over the live classes of /repo: defining_features cover exactly the constructor parameters of every element class. Falsifier: save / json.load / reload of random nested segments with every class and non-default attribute, track equality, file layout.',
+        design="§5 C14",
+        note='Trusted: Lean 4.33 kernel, Mathlib; axioms propext/Classical.choice/Quot.sound only (audited each run); instance Scalar ℝ; real-number semantics (round-off outside the theorems, covered by double-vs-double correspondence); harness generators; json / tolist / torch.tensor round trip of values is trusted (observed by the falsifier).',
+        technique='Lean 4 proof (round trip by structural induction) + decide over translator tables + save/load falsifier',
+    ),
+    "C15": dict(
+        category="proof",
+        text='Lean 4 theorems (C15.*) by decide over the live classes: clone = construct(class, defining_features) copies every constructor-settable attribute (features cover the constructor parameters; behaviour flags are features). Falsifier: every class with non-default attributes, nested segments, both beam types: attribute equality, dtype, storage disjointness (data_ptr), track equality, mutation independence in both directions.',
+        design="§5 C15",
+        note='Trusted: Lean 4.33 kernel, Mathlib; axioms propext/Classical.choice/Quot.sound only (audited each run); instance Scalar ℝ; real-number semantics (round-off outside the theorems, covered by double-vs-double correspondence); harness generators; storage independence is observed, not proved.',
+        technique='Lean 4 decide over translator-regenerated tables + clone falsifier',
+    ),
+    "C16": dict(
+        category="proof",
+        text='Lean 4 theorems (C16.*): piece lengths add up, none exceeds the resolution, at least one piece; the product of the n piece maps of a quadrupole (either sign, tilt, misalignment) and of a drift is the whole map (from the proved group law) and tracking through the pieces equals the whole; Bmad-X drift pieces compose; correctors keep at least one piece and the total angle; unsplittable elements return themselves; split forwards every constructor parameter (table). Tie: piece count/length vs the model. Falsifier: pieces vs whole on the real code.',
+        design="§5 C16",
+        note='Trusted: Lean 4.33 kernel, Mathlib; axioms propext/Classical.choice/Quot.sound only (audited each run); instance Scalar ℝ; real-number semantics (round-off outside the theorems, covered by double-vs-double correspondence); harness generators; vectorised lengths are falsifier-only.',
+        technique='Lean 4 proof (group law => n pieces compose) + split correspondence + falsifier',
+    ),
+    "C17": dict(
+        category="proof",
+        text='Lean 4 theorems (C17.*): emittance > 0, beta > 0, beta*gamma - alpha^2 = 1 when the clamp is inactive; ParameterBeam.from_twiss read back exactly; transport law M Sigma M^T entrywise and emittance invariance for det M = 1; weighted statistics invariant under permutation, translate/scale with coordinates, reduce to unbiased sample statistics when all survive. Tie: Twiss read-out, from_twiss and weighted statistics vs the model. Falsifier on real beams incl. vectorised and the statistical from_twiss clause.',
+        design="§5 C17",
+        note='Trusted: Lean 4.33 kernel, Mathlib; axioms propext/Classical.choice/Quot.sound only (audited each run); instance Scalar ℝ; real-number semantics (round-off outside the theorems, covered by double-vs-double correspondence); harness generators; the statistical clause is exploration by nature.',
+        technique='Lean 4 proof (real algebra) + correspondences + falsifier',
+    ),
+    "C18": dict(
+        category="proof",
+        text='Lean 4 theorems (C18.*): (tau,delta,E0) -> (z,pz,p0c) -> back and the reverse round trip are identities for physical particles; the documented definitions; SI round trip is the identity when mec = me*c; E^2 = (pc)^2 + m^2. Tie: the four conversion functions vs the model. Falsifier: mpmath oracle of the documented definitions, both dtypes.',
+        design="§5 C18",
+        note='Trusted: Lean 4.33 kernel, Mathlib; axioms propext/Classical.choice/Quot.sound only (audited each run); instance Scalar ℝ; real-number semantics (round-off outside the theorems, covered by double-vs-double correspondence); harness generators; float32 underflow in the SI conversions is a known finding.',
+        technique='Lean 4 proof (real analysis with sqrt) + conversion correspondence + mpmath falsifier',
+    ),
+    "C19": dict(
+        category="proof",
+        text="Lean 4 theorems (C19.*): with the kick's structure dt * sum_j w_j g(i,j) (g arbitrary position-only kernel) the momentum kick is proportional to charge and to length, vanishes for zero charge, ignores lost particles as sources; the CIC deposit is linear in the charges; positions are unchanged by a kick applied in SI coordinates. Tie: the real CIC deposit vs cicDeposit. Falsifier: relations between runs on the real code, outward push, uniform-sphere field.",
+        design="§5 C19",
+        note='Trusted: Lean 4.33 kernel, Mathlib; axioms propext/Classical.choice/Quot.sound only (audited each run); instance Scalar ℝ; real-number semantics (round-off outside the theorems, covered by double-vs-double correspondence); harness generators; partial: the Poisson solve/gather are abstracted; outward push and analytic field are falsifier-only.',
+        technique='Lean 4 proof (linearity of the kick structure) + deposit correspondence + relational falsifier',
+    ),
+    "C20": dict(
+        category="proof",
+        text='Lean 4 theorems (C20.*): every pixel a particle can fall into lies within (H/b, W/b); its bin contains (x-dx, y-dy) (half-open, last closed); row 0 is the top; BPM reads the centroid; the reading reflects the last beam for every history; inactive diagnostics pass the beam. Tie: single particles on random non-square/binned/misaligned screens: lit pixel and shape vs pixelOf. Falsifier: both methods, both beam types, vectorised kde, BPM.',
+        design="§5 C20",
+        note='Trusted: Lean 4.33 kernel, Mathlib; axioms propext/Classical.choice/Quot.sound only (audited each run); instance Scalar ℝ; real-number semantics (round-off outside the theorems, covered by double-vs-double correspondence); harness generators; partial: KDE / ParameterBeam / vectorised images are falsifier-only.',
+        technique='Lean 4 proof (bin-search specification, cache invariant) + pixel correspondence + falsifier',
+    ),
     "C01": dict(
         category="proof",
         text="Lean 4 theorems (C01.*), core Lean, by mutual structural induction over arbitrary nested lattices: the "
